@@ -21,7 +21,7 @@ def _val(x):
     return x
 
 
-def build_node(objs, ncb):
+def build_node(objs, ncb, nrcb=1):
     import canopen
     from canopen.objectdictionary import ODArray, ODRecord, ODVariable
     od = canopen.ObjectDictionary()
@@ -64,9 +64,14 @@ def build_node(objs, ncb):
     node = canopen.LocalNode(NODE, od)
     wlog = []
     if rcb:
-        def on_read(index, subindex, od, **kw):
-            return rcb.get((index, subindex))
-        node.add_read_callback(on_read)
+        # the entries with a read callback are spread over nrcb callbacks (the first callback that returns a
+        # value decides; the others return None for an entry that is not theirs)
+        for j in range(max(1, nrcb)):
+            def on_read(index, subindex, od, _j=j, **kw):
+                if (index + subindex) % max(1, nrcb) != _j:
+                    return None
+                return rcb.get((index, subindex))
+            node.add_read_callback(on_read)
     for i in range(ncb):
         def on_write(index, subindex, od, data, _i=i, **kw):
             wlog.append([index, subindex, B(data)])
@@ -88,7 +93,7 @@ class Feeder:
         self.bus = FakeBus(self._on_send)
         self.net = canopen.Network()
         self.net.bus = self.bus
-        self.node, self.header, self.wlog = build_node(case["objs"], case.get("ncb", 1))
+        self.node, self.header, self.wlog = build_node(case["objs"], case.get("ncb", 1), case.get("nrcb", 1))
         self.net.add_node(self.node)
         self.snap = snapshot(self.node)
 
